@@ -399,8 +399,33 @@ func (p *profPlan) Exec(w Window) ([]string, error) {
 	return []string{str}, nil
 }
 
-// NewPlan builds a fresh plan object for s.
-func NewPlan(s Spec) (Plan, error) {
+// NewPlan builds a fresh plan object for s.  A panic of the planner on the calling goroutine (the HTTP handlers
+// recover those into a 500) counts as a planner error: the query is unsupported, not a C14 matter.
+func NewPlan(s Spec) (p Plan, err error) {
+	defer func() {
+		if r := recover(); r != nil {
+			p, err = nil, fmt.Errorf("planner panic: %v", r)
+		}
+	}()
+	p, err = newPlan(s)
+	if p != nil {
+		p = safePlan{p}
+	}
+	return
+}
+
+type safePlan struct{ Plan }
+
+func (s safePlan) Exec(w Window) (st []string, err error) {
+	defer func() {
+		if r := recover(); r != nil {
+			st, err = nil, fmt.Errorf("planner panic: %v", r)
+		}
+	}()
+	return s.Plan.Exec(w)
+}
+
+func newPlan(s Spec) (Plan, error) {
 	switch {
 	case s.Kind == "logql":
 		return newLogQL(s)
